@@ -34,9 +34,17 @@ ASSUMPTIONS = [
 def c10_case(draw):
     a = draw(gen.case(max_nodes=6, rare=True))
     others = draw(st.lists(gen.case(max_nodes=3, sweeps=True, rare=False), max_size=3))
+    others_l = [{"case": o, "traced": draw(st.booleans())} for o in others]
+    # a twin of A whose sweep expressions differ (same generated class names, different meaning)
+    if any(n.get("sweep") and n["sweep"].get("params") for n in a["nodes"]) and draw(st.booleans()):
+        twin = copy.deepcopy(a)
+        for n in twin["nodes"]:
+            if n.get("sweep"):
+                n["sweep"]["params"] = {k: f"({e}) + 10.0" for k, e in n["sweep"]["params"].items()}
+        others_l.insert(0, {"case": twin, "traced": True})
     return {"a": a, "detail": draw(st.sampled_from(["hash", "repr", "context", "all", "hash,repr,context"])),
-            "others": [{"case": o, "traced": draw(st.booleans())} for o in others],
-            "reuse": draw(st.booleans()), "mode": draw(st.sampled_from(["file", "file", "dir"]))}
+            "others": others_l, "reuse": draw(st.booleans()), "mode": draw(st.sampled_from(["file", "file", "dir"])),
+            "shared_orchestrator": draw(st.booleans()), "iterator": draw(st.integers(0, 5)) == 0}
 
 
 def _files() -> Dict[str, str]:
@@ -60,31 +68,87 @@ def check_case(case: Dict[str, Any], col: Collector, workroot: str = ".") -> Non
     m = M.run(a)
     tdir = tempfile.mkdtemp(prefix="c10-", dir=workroot)
     try:
+        shared = None
+        if case.get("shared_orchestrator"):
+            from semantiva.execution.orchestrator.orchestrator import LocalSemantivaOrchestrator
+
+            shared = LocalSemantivaOrchestrator()
+
+        def fresh(c):
+            """A new Pipeline object, on the shared orchestrator when the history uses one."""
+            if shared is None:
+                return None
+            from semantiva.pipeline import Pipeline
+
+            try:
+                return Pipeline(M.to_config(c), orchestrator=shared)
+            except Exception:  # noqa: BLE001
+                return None
+
+        # run 1 has no history at all (its own orchestrator); with a shared orchestrator run 2 comes after the others on it
         r1 = tracelib.run_traced(copy.deepcopy(a), detail, case.get("mode", "file"), os.path.join(tdir, "r1"))
         files_1 = _files()
         for j, o in enumerate(case.get("others", [])):
             oc = {k: o["case"][k] for k in ("nodes", "ctx", "data")}
             if o.get("traced"):
-                tracelib.run_traced(copy.deepcopy(oc), detail, "file", os.path.join(tdir, f"o{j}"))
+                tracelib.run_traced(copy.deepcopy(oc), detail, "file", os.path.join(tdir, f"o{j}"), pipeline=fresh(oc))
             else:
-                observe.run_real(copy.deepcopy(oc))
+                observe.run_real(copy.deepcopy(oc), pipeline=fresh(oc))
             _files()
-        pipe = r1["pipeline"] if case.get("reuse") else None
+        pipe = r1["pipeline"] if (case.get("reuse") and shared is None) else fresh(a)
         r2 = tracelib.run_traced(copy.deepcopy(a), detail, case.get("mode", "file"), os.path.join(tdir, "r2"), pipeline=pipe)
+        if case.get("iterator"):
+            _iterator_clause(case, detail, tdir, col)
         files_2 = _files()
         _judge(case, a, m, ref, r1, r2, files_ref, files_1, files_2, col)
     finally:
         shutil.rmtree(tdir, ignore_errors=True)
 
 
+def _iterator_clause(case, detail, tdir, col) -> None:
+    """One-shot iterators (in the context, consumed by the first node; and as a lazy data payload): tracing must not
+    drain them before the node sees them."""
+    observe.ensure_registered()
+    from semantiva.pipeline import Payload, Pipeline
+    from semantiva.trace.drivers.jsonl import JsonlTraceDriver
+
+    from ..lib.components import VLazyFloatStream
+
+    items = [1.0, 2.0, 3.5]
+    scenarios = {
+        "context_iterator": ([{"processor": "VIterSumOp"}, {"processor": "FloatCollectValueProbe", "context_key": "c"}],
+                             lambda: Payload(observe.build_data(M.F(1.0)), {"items": iter(list(items)), "tag": "x"})),
+        "context_iterator_later_node": ([{"processor": "FloatSquareOperation"}, {"processor": "VIterSumOp"}],
+                                        lambda: Payload(observe.build_data(M.F(2.0)), {"items": iter(list(items))})),
+        "lazy_data": ([{"processor": "VStreamSumOp"}, {"processor": "FloatSquareOperation"}],
+                      lambda: Payload(VLazyFloatStream(iter(list(items))), {"tag": "x"})),
+    }
+    for name, (cfg, make) in scenarios.items():
+        col.labels["iterator_in_context"] += 1
+
+        def run(trace):
+            p = Pipeline(cfg, trace=trace)
+            try:
+                out = p.process(make())
+                return ["ok", observe.norm_data(out.data)]
+            except Exception as exc:  # noqa: BLE001
+                return ["exc", type(exc).__name__]
+
+        plain = run(None)
+        traced = run(JsonlTraceDriver(os.path.join(tdir, f"iter_{name}.ser.jsonl"), detail=detail))
+        if plain != traced:
+            col.add("tracing_consumes_one_shot_iterator", {"scenario": name, "detail": detail.split(",")[0]}, case, traced, plain)
+
+
 def _judge(case, a, m, ref, r1, r2, files_ref, files_1, files_2, col) -> None:
     labs = labels_of(a, m) + ["detail:" + case.get("detail", "hash"), "history:%d" % len(case.get("others", [])),
-                              "reuse" if case.get("reuse") else "fresh", "mode:" + case.get("mode", "file")]
+                              "reuse" if case.get("reuse") else "fresh", "mode:" + case.get("mode", "file"),
+                              "shared_orchestrator" if case.get("shared_orchestrator") else "own_orchestrator"]
     ctx_write = any(e.get("post") is not None and not observe.equal(e["pre"], e["post"]) for e in m["log"])
     nontriv = len(a["nodes"]) >= 2 and ctx_write and (bool(case.get("others")) or bool(case.get("reuse")))
     col.count(case, labs, nontriv)
     sweep = any(n.get("sweep") for n in a["nodes"])
-    feats0 = {"reuse": bool(case.get("reuse")), "has_sweep": sweep}
+    feats0 = {"reuse": bool(case.get("reuse")), "has_sweep": sweep, "shared_orchestrator": bool(case.get("shared_orchestrator"))}
 
     def bad(check, feats=None, observed=None, expected=None):
         col.add(check, dict(feats or {}), case, observed, expected)
@@ -165,4 +229,4 @@ def valid(case: Any) -> bool:
 
 
 def label_requirements(tier: str) -> Dict[str, Any]:
-    return {"reuse": 0.2, "fresh": 0.3, "succeeds": 0.2, "fails": 0.2, "sweep": 0.05, "history:0": 0.05, "history:2": 0.1}
+    return {"shared_orchestrator": 0.2, "iterator_in_context": 20, "reuse": 0.2, "fresh": 0.3, "succeeds": 0.2, "fails": 0.2, "sweep": 0.05, "history:0": 0.04, "history:2": 0.06}
